@@ -7,6 +7,7 @@ mod c01;
 mod c02;
 mod c08;
 mod c17;
+mod c19;
 mod c16;
 mod c13;
 mod c07;
@@ -44,6 +45,7 @@ fn main() {
         "C02" => c02::run(&mut run),
         "C08" => c08::run(&mut run),
         "C17" => c17::run(&mut run),
+        "C19" => c19::run(&mut run),
         "C16" => c16::run(&mut run),
         "C13" => c13::run(&mut run),
         "C07" => c07::run(&mut run),
